@@ -832,9 +832,16 @@ impl World {
                 }
             }
             AOp::SubPoll(ix) => {
-                let free: Vec<usize> = (0..self.subs.len()).filter(|i| !self.subs[*i].busy && self.subs[*i].stream_flag.is_none()).collect();
+                // also a subscriber whose earlier poll is still outstanding: polled again with a
+                // fresh waker, which supersedes the earlier one (only the latest has to be woken)
+                let free: Vec<usize> = (0..self.subs.len()).filter(|i| !self.subs[*i].busy).collect();
                 let Some(i) = pick(ix, free.len()) else { return Ok(()) };
-                self.poll_stream(free[i], true)?;
+                let s = free[i];
+                if self.subs[s].stream_flag.is_some() {
+                    self.rep.classes.push("outstanding_poll_repeated_with_a_new_waker");
+                }
+                let first = self.subs[s].stream_flag.is_none();
+                self.poll_stream(s, first)?;
             }
             AOp::SubNextRefNow(ix) => {
                 let free: Vec<usize> = (0..self.subs.len()).filter(|i| !self.subs[*i].busy).collect();
